@@ -784,7 +784,12 @@ pub fn run_mode<S: Src, const P: u8, E: EncCase, const MODE: u8, const B: usize>
     let len = match res {
         Ok(l) => l,
         Err(()) => {
-            // valid arguments refused: owned by C16
+            // valid arguments refused: C16 owns "every other argument succeeds"; the layout
+            // properties describe what the encoder produces for these arguments, so no packet
+            // at all is a violation of them too
+            chk!(s, P, C06, false, "request: valid arguments are encoded");
+            chk!(s, P, C07, false, "response: valid arguments are encoded");
+            chk!(s, P, C08, false, "message: a PCI / IANA / SPDM message that fits is encoded");
             return;
         }
     };
